@@ -20,23 +20,43 @@ type c09PairCase struct {
 	Lit bool   `json:"lit,omitempty"` // operands spelled as literals instead of variables
 }
 
+// valueUniverse: the plain members for which the statements give value rules (no Go range, no ordered map)
+func valueUniverse() []hx.UVal {
+	var out []hx.UVal
+	for _, u := range plainUniverse() {
+		if !c09Beyond(u.Spec) {
+			out = append(out, u)
+		}
+	}
+	return out
+}
+
 func plainUniverse() []hx.UVal {
 	var out []hx.UVal
 	for _, u := range c01U {
 		if !u.Plain || (u.Spec.K == "str" && len(u.Spec.S) > 100) {
 			continue
 		}
-		// the statement is about nil, booleans, numbers, strings, arrays and maps (and Drops of
-		// them): a Go range value and an ordered YAML map are only promised to work for
-		// loops/array filters resp. lookup and size (C11, C15, C18), not as comparison operands
-		if u.Spec.R == "range" || u.Spec.R == "mapslice" {
-			continue
-		}
-		{
-			out = append(out, u)
-		}
+		// (a Go range value and an ordered YAML map take part too: the value rules are about nil,
+		// booleans, numbers, strings, arrays and maps, but the operators are "coherent for all
+		// operands" - see c09Beyond)
+		out = append(out, u)
 	}
 	return out
+}
+
+// c09Beyond: representations for which the statement gives no value rules (only loops / array
+// filters resp. lookup and size are promised for them: C11, C15, C18)
+func c09Beyond(s *hx.Spec) bool {
+	if s.R == "range" || s.R == "mapslice" {
+		return true
+	}
+	for _, e := range s.E {
+		if c09Beyond(e) {
+			return true
+		}
+	}
+	return false
 }
 
 func litable(s *hx.Spec) bool {
@@ -125,6 +145,11 @@ var c09Pair = hx.Define("c09.pair", func(c *c09PairCase, s *hx.Sub) *hx.Violatio
 		}
 	}
 	// value rules from the reference model
+	if c09Beyond(ua.Spec) || c09Beyond(ub.Spec) {
+		s.Class("coherence-laws-only")
+		s.NT()
+		return nil
+	}
 	m := hx.NewModel(map[string]any{"a": ua.Spec.Logical(), "b": ub.Spec.Logical()})
 	la, lb := m.Vars["a"], m.Vars["b"]
 	specified := 0
@@ -246,9 +271,12 @@ func TestC09(t *testing.T) {
 	}
 
 	combo := c09Combo.On(col, "rapid: and/or/parenthesised combinations (depth <= 4) of comparisons and bare values over variables bound to universe members, printed with random spacing; oracle: reference model (exactly nil and false are falsy). Non-trivial: the model's value is specified; distinct by expression+bindings", false)
-	names := make([]string, len(pu))
-	for i, u := range pu {
-		names[i] = u.Name
+	// (the combinations are judged by value rules only: members without value rules stay out)
+	var names []string
+	for _, u := range pu {
+		if !c09Beyond(u.Spec) {
+			names = append(names, u.Name)
+		}
 	}
 	vars := []string{"p", "q", "r", "s"}
 	var gen func(t *rapid.T, d int) *hx.E
